@@ -98,3 +98,11 @@ def pkcs7(data):
 
 def xor_bytes(a, b):
     return bytes(x ^ y for x, y in zip(a, b))
+
+
+def byte_at(s, j):
+    return s[j] if 0 <= j < len(s) else 0
+
+
+def forall(lo, hi, fn):
+    return all(fn(j) for j in range(lo, hi))
